@@ -15,11 +15,12 @@ GEN_NEEDS = ["featureNameQualifiers", "featureIdQualifiers", "FeatureInterval",
              "features_FEATURE_TYPE_IDENTIFIERS", "gff3_BioCantorQualifiers", "gff3_BioCantorGFF3ReservedQualifiers",
              "genbank_GENBANK_GENE_FEATURES", "genbank_GeneFeatures", "genbank_TranscriptFeatures",
              "genbank_GeneIntervalFeatures", "genbank_KnownQualifiers"]
-MODEL_OPS = {"extract", "types", "merge", "fsq", "ltgroup", "gbiotype"}      # gbperm: spec + real parser only
+MODEL_OPS = {"extract", "types", "merge", "fsq", "ltgroup", "gbiotype", "xq"}      # gbperm: spec + real parser only
 RULE = ("extract: every subset of size <= K of the 9 recognised keys + the look-alikes genes/xname/ID2/Gene/NAME "
         "(K=4 quick, 5 thorough) in EVERY ordering, pairwise distinct values; the /note grid; newline look-alikes; "
         "random larger dicts with random letter case and multi-valued keys. types/merge/fsq: exhaustive small key "
-        "universes x orderings, then random. ltgroup: every sequence of <= N features over tags {a,b,ab} x kinds "
+        "universes x orderings, then random. xq: export_qualifiers(parent_qualifiers) of feature / transcript / CDS "
+        "intervals over all own x parent dictionaries of a 2-key universe x identifier attributes. ltgroup: every sequence of <= N features over tags {a,b,ab} x kinds "
         "gene/transcript/CDS/other (every permutation of every record is itself in the scope; a tag with only "
         "other-kind features yields no group), then random longer "
         "records. gbiotype: every sequence of <= 3 (4) transcript feature types on one locus through the real parser. "
@@ -87,6 +88,12 @@ def nontrivial(line, ans):
         return line if len(set(tags)) < len(tags) else None
     if op == "gbiotype":
         return line if int(t[1]) >= 2 else None
+    if op == "xq":
+        own, i = _dec_keys(t, 2)
+        if t[i] == "N":
+            return None
+        par, _ = _dec_keys(t, i + 1)
+        return line if set(own) & set(par) else None
     if op == "gbperm":
         n = int(t[1])
         tags = [t[2 + 4 * j] for j in range(n)]
@@ -269,7 +276,51 @@ def _ltgroup_cases(run, scopes, nrand):
         yield ltgroup_line(perm)
 
 
-GB_TX_TYPES = ["mRNA", "tRNA", "ncRNA"]
+GB_XQ_ATTRS = {
+    "f": [[None, None], ["fname", None], ["fname", "fid"], ["", "fid"]],
+    "t": [[None, None, None, None], ["tid", None, None, None], ["tid", "sym", "protein_coding", "pid"],
+          [None, "sym", "tRNA", ""]],
+    "c": [[None, None], ["pid", None], ["pid", "prod"], [None, "v1"]],
+}
+
+
+def xq_line(kind, own, parent, attrs):
+    from harness.impl_qualifiers import enc_opt
+    par = "N" if parent is None else "P " + enc_dict(parent)
+    return f"xq {kind} {enc_dict(own)} {par} {len(attrs)} " + " ".join(enc_opt(a) for a in attrs)
+
+
+def _xq_cases(run, thorough, nrand):
+    """interval-level merge: own x parent dictionaries over a small universe (shared keys with different value sets,
+    disjoint keys, empty sides, parent None / {}), x the identifier attributes of each class; keys include the
+    identifier keys themselves (an own `protein_id` qualifier next to the protein_id attribute)"""
+    vsets = [None, ["a"], ["b"], ["b", "a"], ["b", "c"]]
+    keys = ["note", "db_xref"]
+    dicts = [[(k, v) for k, v in zip(keys, combo) if v is not None] for combo in itertools.product(vsets, repeat=2)]
+    dicts += [[("db_xref", ["x"]), ("note", ["a"])], [("protein_id", ["v1", "pid"])], [("note", [])]]
+    for kind in "ftc":
+        attr_sets = XQ_ATTRS[kind] if thorough else XQ_ATTRS[kind][::2] + XQ_ATTRS[kind][3:]
+        for own in dicts:
+            for parent in [None] + dicts:
+                for attrs in (attr_sets if (thorough or len(own) + len(parent or []) <= 2) else attr_sets[1:2]):
+                    run.count("xq:grid")
+                    yield xq_line(kind, own, parent, attrs)
+    rng = run.rng
+    universe = ["note", "db_xref", "gene", "protein_id", "product", "transcript_id", "feature_name", "Note", "a b"]
+    for _ in range(nrand):
+        def rd():
+            ks = rng.sample(universe, rng.randint(0, 5))
+            return [(k, [rng.choice(["b", "a", "B", "aa", "10", "9", "pid", "x y"]) for _ in range(rng.randint(0, 3))])
+                    for k in ks]
+        kind = rng.choice("ftc")
+        attrs = [rng.choice([None, "", "pid", "zz"]) for _ in XQ_ATTRS[kind][0]]
+        if kind == "t":
+            attrs[2] = rng.choice([None, "protein_coding", "ncRNA"])
+        run.count("xq:random")
+        yield xq_line(kind, rd(), rng.choice([None, rd(), rd()]), attrs)
+
+
+TX_TYPES = ["mRNA", "tRNA", "ncRNA"]
 
 
 def _gb_records(rng, n_tags, complete=True):
@@ -331,6 +382,50 @@ def _gbperm_cases(run, nrec, nperm):
             yield gbperm_line(feats, p)
 
 
+XQ_ATTRS = {
+    "f": [[None, None], ["fname", None], ["fname", "fid"], ["", "fid"]],
+    "t": [[None, None, None, None], ["tid", None, None, None], ["tid", "sym", "protein_coding", "pid"],
+          [None, "sym", "tRNA", ""]],
+    "c": [[None, None], ["pid", None], ["pid", "prod"], [None, "v1"]],
+}
+
+
+def xq_line(kind, own, parent, attrs):
+    from harness.impl_qualifiers import enc_opt
+    par = "N" if parent is None else "P " + enc_dict(parent)
+    return f"xq {kind} {enc_dict(own)} {par} {len(attrs)} " + " ".join(enc_opt(a) for a in attrs)
+
+
+def _xq_cases(run, thorough, nrand):
+    """interval-level merge: own x parent dictionaries over a small universe (shared keys with different value sets,
+    disjoint keys, empty sides, parent None / {}), x the identifier attributes of each class; keys include the
+    identifier keys themselves (an own `protein_id` qualifier next to the protein_id attribute)"""
+    vsets = [None, ["a"], ["b"], ["b", "a"], ["b", "c"]]
+    keys = ["note", "db_xref"]
+    dicts = [[(k, v) for k, v in zip(keys, combo) if v is not None] for combo in itertools.product(vsets, repeat=2)]
+    dicts += [[("db_xref", ["x"]), ("note", ["a"])], [("protein_id", ["v1", "pid"])], [("note", [])]]
+    for kind in "ftc":
+        attr_sets = XQ_ATTRS[kind] if thorough else XQ_ATTRS[kind][::2] + XQ_ATTRS[kind][3:]
+        for own in dicts:
+            for parent in [None] + dicts:
+                for attrs in (attr_sets if (thorough or len(own) + len(parent or []) <= 2) else attr_sets[1:2]):
+                    run.count("xq:grid")
+                    yield xq_line(kind, own, parent, attrs)
+    rng = run.rng
+    universe = ["note", "db_xref", "gene", "protein_id", "product", "transcript_id", "feature_name", "Note", "a b"]
+    for _ in range(nrand):
+        def rd():
+            ks = rng.sample(universe, rng.randint(0, 5))
+            return [(k, [rng.choice(["b", "a", "B", "aa", "10", "9", "pid", "x y"]) for _ in range(rng.randint(0, 3))])
+                    for k in ks]
+        kind = rng.choice("ftc")
+        attrs = [rng.choice([None, "", "pid", "zz"]) for _ in XQ_ATTRS[kind][0]]
+        if kind == "t":
+            attrs[2] = rng.choice([None, "protein_coding", "ncRNA"])
+        run.count("xq:random")
+        yield xq_line(kind, rd(), rng.choice([None, rd(), rd()]), attrs)
+
+
 TX_TYPES = ["mRNA", "ncRNA", "tRNA", "rRNA", "misc_RNA", "tmRNA"]
 
 
@@ -370,6 +465,7 @@ def cases(run):
     yield from _merge_cases(run, thorough, 3000 if thorough else 300)
     yield from _fsq_cases(run, 3000 if thorough else 300)
     yield from _ltgroup_cases(run, lt_scopes, 3000 if thorough else 300)
+    yield from _xq_cases(run, thorough, 2000 if thorough else 200)
     yield from _gbiotype_cases(run, 4 if thorough else 3, 1000 if thorough else 60)
     run.exhaustive = True
     yield from _extract_random(run, 20000 if thorough else 2000)
